@@ -176,7 +176,7 @@ void Ctx::c04() {
     }
 
     // application side
-    struct Deliv { int msg; uint64_t seq; const Done* d; };
+    struct Deliv { int msg; uint64_t seq; const Done* d; int svc_gen; };
     std::vector<Deliv> delivs;
     std::map<int, int> count;
     for (auto& o : s.ops) {
@@ -193,7 +193,7 @@ void Ctx::c04() {
             if (d.c.topic != m.topic || d.c.payload != m.payload || !props_equal(d.c.props, m.props))
                 fail("C04", "message_content_differs", "message " + std::to_string(m.id) + " delivered as topic " + d.c.topic + " props " + props_str(d.c.props) +
                      " but the broker sent topic " + m.topic + " props " + props_str(m.props));
-            delivs.push_back({m.id, d.seq, &d});
+            delivs.push_back({m.id, d.seq, &d, o.svc_gen});
             ++count[m.id];
         }
     }
@@ -204,10 +204,14 @@ void Ctx::c04() {
         if (m.qos == 0 && n > 1) fail("C04", "qos0_delivered_twice", "QoS 0 message " + std::to_string(id) + " handed to the application " + std::to_string(n) + " times");
     }
     // order of first deliveries per QoS level == order of first sends
-    for (int q = 0; q <= 2; ++q) {
+    // (per service generation: while a service winds down after async_disconnect/cancel() and its successor already runs, each
+    // has its own receive channel and its own connection; what the two hand to the application interleaves freely)
+    std::set<int> gens; for (auto& d : delivs) gens.insert(d.svc_gen);
+    for (int g : gens) for (int q = 0; q <= 2; ++q) {
         std::set<int> seen; uint64_t last_first_send = 0; int last_msg = -1;
         for (auto& d : delivs) {
             auto& m = B.msgs[d.msg];
+            if (d.svc_gen != g) continue;
             if (m.qos != q || !seen.insert(d.msg).second) continue;
             // K12: the PUBREL of the earlier message overtook the completion of the write that carried its PUBREC (it is
             // parked, and the PUBCOMP is sent from a posted continuation), the PUBREL of the later message did not
